@@ -171,7 +171,16 @@ def rule_signer_arm(ctx: Ctx, rep: Report) -> None:
     rep.floor("C03.signer_arm", 2)
 
 
+def rule_dispatch_hf(ctx: Ctx, rep: Report) -> None:
+    """C03.dispatch_hf: every dispatch in the module asks the bindings predicate
+    with the hash function the caller named -- BIP340's tagged hashes inside libsecp256k1 are SHA256: a signature asked under another hash function is the Python arm's."""
+    from rules.C04 import predicate_hf
+    predicate_hf(ctx, rep, "C03.dispatch_hf", S)
+    rep.floor("C03.dispatch_hf", 3)
+
+
 RULES = [
+    ("C03.dispatch_hf", rule_dispatch_hf),
     ("C03.signer_arm", rule_signer_arm),
     ("C03.signer_config", rule_signer_config),
     ("C03.verify_range", rule_verify_range),
@@ -184,6 +193,8 @@ RULES = [
 ]
 
 CONTROLS = [
+    {"rule": "C03.dispatch_hf", "name": "sign_ asks the bindings without the hash function", "module": S,
+     "edit": lambda ctx: M.sub_expr(ctx, f"{S}.sign_", lambda n: isinstance(n, ast.Call) and call_name(n) == "_libsecp256k1_serves" and len(n.args) == 2, "_libsecp256k1_serves(ec, None)")},
     {"rule": "C03.signer_config", "name": "Signer.sign_ falls back without its hash function", "module": S,
      "edit": lambda ctx: M.sub_expr(ctx, f"{S}.Signer.sign_", lambda n: isinstance(n, ast.Call) and call_name(n) == "sign_" and len(n.args) >= 5,
                                     "sign_(msg, self._q, aux, self._ec, verify=verify)")},
